@@ -620,6 +620,7 @@ def run(tier, replay):
 
     # ---- 5. enumerated vectors against TLC's expectation --------------------------------------------
     n_eval, nontrivial, mism, tally = 0, set(), 0, {}
+    findings = []                        # (what, replay object, deviation or None); reported shortest first
     for vid, (line, vec) in enum_map.items():
         r = res.get(vid)
         if r is None:
@@ -635,8 +636,8 @@ def run(tier, replay):
             what = "%s: value %s of\n%s\n  documented JSON %s\n  observed %s" % (
                 verdict or "typed mapping differs from the specification", rust_decl_value(vec["v"], d, line["prog"]), rust_decl(d),
                 json_text(vec["doc"]), json.dumps(brief(r), ensure_ascii=False))
-            ctx.violation(what, {"kind": "map-vector", "id": vid, "expected": vec["exp"], "observed": r,
-                                 "tlc_line": dict(line, vecs=[vec])}, dev=verdict)
+            findings.append((what, {"kind": "map-vector", "id": vid, "expected": vec["exp"], "observed": r,
+                                    "tlc_line": dict(line, vecs=[vec])}, verdict))
     for vid, line in enum_lit.items():
         r = res.get(vid)
         if r is None:
@@ -650,7 +651,7 @@ def run(tier, replay):
             mism += 1
             what = "%s: json!(%s) should be %s, observed %s" % (verdict or "json! differs from the specification", line["src"],
                                                                json_text(line["doc"]), json.dumps(brief(r), ensure_ascii=False))
-            ctx.violation(what, {"kind": "lit-vector", "id": vid, "expected": line["exp"], "observed": r, "tlc_line": line}, dev=verdict)
+            findings.append((what, {"kind": "lit-vector", "id": vid, "expected": line["exp"], "observed": r, "tlc_line": line}, verdict))
     ctx.add_part("enumerated vectors", programs=len(programs), map_vectors=len(enum_map), literals=len(enum_lit), mismatches=mism,
                  verdicts={str(k): v for k, v in tally.items()})
     vlib.log("[C14] enumerated vectors: %s" % tally)
@@ -699,14 +700,14 @@ def run(tier, replay):
         validated = len(recs)
         for a in summ["attributed"]:
             x = byid[a["id"]]
-            ctx.violation("%s: random vector %s, observed %s" % (a["dev"], describe(x), json_text(x["obs"])),
-                          {"kind": "trace-record", "record": x}, dev=a["dev"])
+            findings.append(("%s: random vector %s, observed %s" % (a["dev"], describe(x), json_text(x["obs"])),
+                             {"kind": "trace-record", "record": x}, a["dev"]))
         for b in summ["rejected"]:
             x = byid[b["id"]]
             if b["why"] == "baddomain":
                 raise vlib.ToolError("random generator produced an input outside the property's domain: %s" % describe(x))
-            ctx.violation("random vector rejected by Trace_JsonMap: %s, observed %s" % (describe(x), json.dumps(brief(x), ensure_ascii=False)[:1500]),
-                          {"kind": "trace-record", "record": x})
+            findings.append(("random vector rejected by Trace_JsonMap: %s, observed %s" % (describe(x), json.dumps(brief(x), ensure_ascii=False)[:1500]),
+                             {"kind": "trace-record", "record": x}, None))
         ctx.add_part("random vectors", records=len(recs), attributed=len(summ["attributed"]), rejected=len(summ["rejected"]))
         for x in recs[:2]:
             ctx.sample({"random": describe(x), "observed": json_text(x["obs"])})
@@ -732,11 +733,14 @@ def run(tier, replay):
                 if judge(res[vid], flipped, [], [], map_agrees) == "ok":
                     raise vlib.ToolError("binding self-test failed: flipped expectation accepted")
 
+    for what, obj, dev in sorted(findings, key=lambda f: len(f[0])):
+        ctx.violation(what[:1200], obj, dev=dev)
+
     ctx.cov["evaluations"] = n_eval
     ctx.cov["distinct_nontrivial"] = len(nontrivial)
     ctx.cov["traces_validated_against_impl"] = validated
     ctx.cov["programs"] = len(crate.owner)
-    ctx.cov["disagreements_checked"] = len(ctx.violations) + sum(c for _, c in ctx.known_hits.values())
+    ctx.cov["disagreements_checked"] = len(findings) + len(compile_errors)
     ctx.cov["exhaustive"] = not replay
     ctx.cov["rule"] = ("enumerated: every declaration of the rotating family (base type x wrapper stack x route x size) with its first %d diagonal values, "
                        "every literal within the node/depth bound, every leaf form in every position; random: seeded programs and literals. "
